@@ -83,3 +83,14 @@ Proof.
   repeat split; try (repeat constructor; unfold small, zlength, two64; cbn; try reflexivity; try (intro; discriminate)).
   all: try (vm_compute; intuition discriminate).
 Qed.
+
+(* the multi-part packing round-trips within the caps (two or more elements), and never returns more than 3 parts *)
+Theorem C16_builder_roundtrip : forall parts secrets,
+  builder_secrets parts = Ok secrets -> (2 <= length secrets)%nat -> parse_secrets secrets = Ok parts.
+Proof. exact builder_roundtrip. Qed.
+Print Assumptions C16_builder_roundtrip.
+
+Theorem C16_parse_rejects_long : forall secrets parts,
+  parse_secrets secrets = Ok parts -> zlength parts <= PartsCap.
+Proof. exact parse_rejects_long. Qed.
+Print Assumptions C16_parse_rejects_long.
